@@ -103,7 +103,9 @@ Proof. split; [exact (decf_eq p)|exact (enc_fast_eq v)]. Qed.
 (* 9. Histories on ONE value.  The Go objects keep an element count beside the property list
    (EcmaArray.count, StrictArray.count); [gval] is the object graph with those fields, [h_run g0 ops]
    the graph after a sequence of API calls (new container, Set on the container at a path,
-   MarshalBinary of the object at a path, typed UnmarshalBinary into a fresh container, Get).
+   MarshalBinary of the object at a path, typed UnmarshalBinary into a fresh container, Get,
+   and UnmarshalBinary ON the object at a path, which keeps whatever the call leaves in the object,
+   ALSO WHEN THE CALL IS REJECTED: see 11.).
    Invariant over ALL sequences (induction over the op list): the graph stays well formed ... *)
 Theorem c05_history_invariant ops g :
   gwfc g = true -> forallb op_wf ops = true -> gwfc (h_run g ops) = true.
@@ -197,6 +199,43 @@ Example c05_unmarshal_live_then_empty :
   um_into (AStr [108; 105; 118; 101]) 5 [2; 0; 0] = Ok (AStr [], 3).
 Proof. exact unmarshal_live_then_empty. Qed.
 
+(* 11. Use of a receiver after a FAILED UnmarshalBinary.  [g_unmarshal g fuel p] returns the
+   receiver's state together with the result, at every exit of the code: scalars are untouched
+   by a rejected call; a container whose header is rejected (too short, wrong marker) is
+   untouched; otherwise the header count has been stored, the old properties dropped, and the
+   pairs completed before the rejection point (name cut short, unsupported or invalid marker,
+   a value's own decoder failing, end marker missing) stay -- so a StrictArray can hold count 4
+   with one element.  Whatever is rejected, the state left behind is well formed, hence
+   c05_history_invariant and c05_history cover every history that contains rejected decodes:
+   marshalling afterwards (after more Sets, inside a parent) writes count = number of properties
+   and the bytes decode back to the current property lists. *)
+Theorem c05_decode_into_state_wf g fuel p :
+  gwfc g = true -> wf_bytes p -> gwfc (fst (g_unmarshal g fuel p)) = true.
+Proof. exact (g_unmarshal_wfc g fuel p). Qed.
+
+(* a successful UnmarshalBinary on any object of the graph -- whatever it held, including the state
+   left by an earlier rejected call -- gives it exactly the value a fresh decode yields *)
+Theorem c05_decode_into_ok g fuel p g' n : gwfc g = true ->
+  g_unmarshal g fuel p = (g', Ok n) -> dec (S fuel) p = Ok (g_view g', n).
+Proof. exact (decode_into_ok g fuel p g' n). Qed.
+
+(* witness of the error state and of its use: header count 4, one complete element, the second cut:
+   rejected, receiver = count 4 + 1 element; two Sets later 3 elements and still count 4 in the
+   object; MarshalBinary of the PARENT writes 3 *)
+Example c05_history_error_state :
+  let bad := [10; 0;0;0;4; 0;1;120; 5; 0;1;121; 2;0] in
+  let ops := [HNew mObject; HSet [] [115] (GCont mStrictArray 0 []); HSet [] [122] (GLeaf (ABool true));
+              HDecodeInto [[115]] bad] in
+  let g := h_run g0 ops in
+  forallb op_wf ops = true /\
+  snd (g_unmarshal (GCont mStrictArray 0 []) (dec_fuel bad) bad) = Err E_SHORT /\
+  g_at [[115]] g = Some (GCont mStrictArray 4 [([120], GLeaf ANull)]) /\
+  let g2 := h_run g [HSet [[115]] [98] (GLeaf AUndef); HSet [[115]] [99] (GLeaf ANull)] in
+  g_at [[115]] g2 = Some (GCont mStrictArray 4 [([120], GLeaf ANull); ([98], GLeaf AUndef); ([99], GLeaf ANull)]) /\
+  fst (g_marshal g2) =
+    [3; 0;1;115; 10; 0;0;0;3; 0;1;120; 5; 0;1;98; 6; 0;1;99; 5; 0;1;122; 1;1; 0;0;9].
+Proof. exact history_error_state. Qed.
+
 (* non-vacuity: a representable tree with nesting, a repeated key, an empty key, a signalling NaN,
    -0, an ECMA array with a foreign count and a strict array with elements *)
 Example c05_nonvacuous :
@@ -229,3 +268,5 @@ Print Assumptions c05_unmarshal_as_fresh.
 Print Assumptions c05_unmarshal_consumed.
 Print Assumptions c05_stream_aligned.
 Print Assumptions c05_unmarshal_append_witness.
+Print Assumptions c05_decode_into_state_wf.
+Print Assumptions c05_decode_into_ok.
